@@ -47,7 +47,52 @@ claim("C16", "other",
       "effect analysis of the reordering closure + SSA dataflow over float operations + comparator shape + table extraction",
       "DESIGN.md 5/C16")
 
-for p in ["C06","C09","C11","C12","C13","C14","C15","C17","C19","C20"]:
+claim("C09", "other",
+      "Decides placement and width of the capacity checks: check(ast) with its error tested dominates buildExpr and no tree-rewriting call can run between them; the limits check enforces fit every narrower integer type a children count or program length/index is converted to; writers of Expr.nodes are enumerated and any growth after check (event nodes) is followed by a final length test before Compile returns; no narrow signed arithmetic on lengths; stack allocation classes are large enough and agree between Eval and TryEval. Does not decide that calAndSetStackSize computes a true upper bound, nor results at the limits.",
+      "must-pass-through / call-order rules on the CFG + narrowing-conversion census matched to extracted limits + writer census + sibling agreement",
+      "DESIGN.md 5/C09")
+
+claim("C11", "other",
+      "Decides the registration and selection clauses: GetOrRegisterKey writes only an absent name and only a key shown unused (set of all current keys, exhausted-scan pigeonhole shape), no other in-package writer of VariableKeyMap; the slice-backed fetcher is constructed only under the min/max gate computed over all keys and indexes only under its bound test; unifyType normalises every listed type with the stated conversion and both fetcher constructors go through it; variable nodes pair a name with the key registered under that same name. Does not decide end-to-end values under permuted layouts.",
+      "edge-dominance facts + loop-shape rules + type-switch table extraction + literal field census",
+      "DESIGN.md 5/C11")
+
+claim("C12", "other",
+      "Decides non-interference and payload clauses: every container-typed component of a sent Event is allocated in the sending function and never written after the send (no aliasing of engine buffers), the operator wrapper is a transparent forwarder that reports the call's own result/error, the event arm of Eval/TryEval is a no-op on every loop-carried variable, Dump skips event nodes, and instrumentation is installed only under ReportEvent/Debug. Does not decide the remapped jump indices of event mode.",
+      "SSA value-root analysis of send payloads + closure shape rule + phi inspection on the loop latch + edge-dominance facts",
+      "DESIGN.md 5/C12")
+
+claim("C13", "other",
+      "Decides the literal-codec clause (Dump escapes iff the lexer unescapes; today neither), that every constant type the parser creates has a printing case in a re-readable form (quotes, parenthesised space-separated lists, base-10 integers), that Dump's selection of `if` children agrees with the compiler's emission order, and that event nodes are skipped. Does not decide equivalence of the recompiled program.",
+      "callee census over the lex and Dump closures + type-switch/print-grammar extraction + sibling agreement on child order",
+      "DESIGN.md 5/C13")
+
+claim("C14", "other",
+      "Decides token-class agreement (every verbatim class of the lexer — opening rune and terminator — has a copy-through state with the same terminator in the formatter), the shared space predicate and delimiter constants, and that directives are read only from leading comment tokens while all comment tokens are removed before parsing. Does not decide token-sequence equality under arbitrary re-layout.",
+      "rune-comparison extraction from lexer closures and formatter loop states + edge-dominance facts",
+      "DESIGN.md 5/C14")
+
+claim("C15", "other",
+      "Decides the operator-table clause (documented precedence levels and arities read from the getInfixOpInfo switch, coverage of every symbolic operator of the operator table, aliases on one level) and the associativity rule (reduction stops only for a strictly tighter operator; comparePrecedence direction; operands popped last to first). Does not decide the shunting-yard algorithm as a whole.",
+      "switch-table extraction from typed syntax + SSA term recovery and loop-exit condition rule",
+      "DESIGN.md 5/C15")
+
+claim("C17", "other",
+      "Decides the dispatch clauses by abstract interpretation of in/overlap over operand types: overlap's outcome matrix is symmetric, same-typed lists give a value, mismatches are errors except the empty literal on either side; in's matrix accepts exactly the documented collections; plus structural necessary conditions of the set semantics (true only under element equality / set hit between the two operands, loops over whole operands, false only at loop exit or for the empty literal). Does not decide the value relation nor scan/hash agreement.",
+      "CFG walk with type tests resolved by assumed operand types + edge-dominance facts + loop-shape rules",
+      "DESIGN.md 5/C17")
+
+claim("C19", "other",
+      "Decides constant agreement of the version encoding (one radix, admitted component bound below the radix, admitted length range containing every default, no int64 overflow, positional accumulation, parse failure is an error) and the time-zone clause (time.Parse only, Unix seconds of that parse, error returned), plus which layout each time operator parses with for each arity. Does not decide the order relation over all pairs.",
+      "constant and bound extraction from branch facts + callee census + may-analysis of mode/arity sets",
+      "DESIGN.md 5/C19")
+
+claim("C20", "other",
+      "Decides the mechanisms the generator's in-line oracle rests on: execOp has the same three-valued decision table as the engine's operator proxy (sibling agreement, shortcuts before poisoning), the generated `if` reports the chosen branch, division operators are chosen only under a correctly maintained no-zero-divisor flag, listed operators exist, and n-ary nodes report execOp of the rendered operator over all children. Does not decide equality with a reference evaluator on every seed.",
+      "decision-table extraction by edge-dominance facts (two siblings compared) + phi/flag dataflow rules + constant list extraction",
+      "DESIGN.md 5/C20")
+
+for p in ["C06"]:
     na(p, PENDING)
 
 na("C02", "semantic equivalence of two programs over all inputs and 16 optimisation subsets is a run-time relation on values computed by folding and re-derived jump tables; no structural clause is a necessary condition on its own (its structural parts are decided under C08, C10, C16); an honest not-applicable for static analysis")
